@@ -6,6 +6,11 @@ Additions to the base semantics (nothing else changes):
    indeterminate bytes, and the destination bytes then are indeterminate too (`undefined_bytes(region)`):
    an implementation may leave anything there.
  * every `alloc` gets fresh addresses (frames are never reused), so "written" marks cannot leak between frames.
+ * object bounds: an access whose address has the shape  <constant> + <symbolic offset>  is inside the premise
+   only if it stays inside the object that contains <constant> (the base it was computed from).  The base
+   semantics accepts an access into ANY live region; a wild index that happens to land in another object (in
+   particular in one of this model's allocas, whose addresses no implementation shares) says nothing about
+   an implementation.  This only narrows the premise.
  * an address that is symbolic is concretised through the active engine when it has at most
    `engine.choose_limit` feasible values (one path per value), so that array reasoning is only left for
    genuinely unbounded pointers.
@@ -36,6 +41,7 @@ class IrSemU(IrSem):
         self.W = z3.K(z3.BitVecSort(self.pb), z3.BoolVal(False))     # stack byte has been written
         self.P = z3.K(z3.BitVecSort(self.pb), z3.BoolVal(False))     # byte received a copy of an indeterminate byte
         self.fresh_top = STACK_BASE
+        self.whole = {}      # concrete address -> (nbytes, value term) of the last store, while no later store overlaps it
 
     def undefined(self, a):
         a = z3.simplify(a)
@@ -46,19 +52,54 @@ class IrSemU(IrSem):
         self.W = z3.Store(self.W, a, z3.BoolVal(True))
         self.P = z3.Store(self.P, a, undef)
 
+    def _object_bounds(self, addr, nbytes):
+        a = z3.simplify(addr)
+        if z3.is_bv_value(a) or not z3.is_app_of(a, z3.Z3_OP_BADD):
+            return
+        consts = [c for c in a.children() if z3.is_bv_value(c)]
+        if len(consts) != 1:
+            return
+        base = consts[0].as_long()
+        for r in self.regions:
+            if r.base <= base < r.base + r.size:
+                if r.size < nbytes:
+                    self.ub.append(z3.BoolVal(True))
+                else:
+                    self.ub.append(z3.Not(z3.And(z3.UGE(a, z3.BitVecVal(r.base, self.pb)),
+                                                 z3.ULE(a, z3.BitVecVal(r.base + r.size - nbytes, self.pb)))))
+                return
+
     def load(self, addr, nbytes):
+        self._object_bounds(addr, nbytes)
         addr = concretise(addr)
         for k in range(nbytes):
             u = self.undefined(addr + k)
             if not z3.is_false(u):
                 self.ub.append(u)
-        return super().load(addr, nbytes)
+        r = super().load(addr, nbytes)
+        if z3.is_bv_value(addr):
+            w = self.whole.get(addr.as_long())
+            if w is not None and w[0] == nbytes:
+                return w[1]          # the very term that was stored (byte-wise reassembly denotes the same value)
+        return r
 
     def store(self, addr, val, nbytes):
+        self._object_bounds(addr, nbytes)
         addr = concretise(addr)
         super().store(addr, val, nbytes)
+        self._forget(addr, nbytes)
+        if z3.is_bv_value(addr):
+            self.whole[addr.as_long()] = (nbytes, val)
         for k in range(nbytes):
             self._mark(z3.simplify(addr + k), z3.BoolVal(False))
+
+    def _forget(self, addr, nbytes):
+        if not z3.is_bv_value(addr):
+            self.whole = {}
+            return
+        a = addr.as_long()
+        for k in [k for k, (n, _) in self.whole.items() if k < a + nbytes and a < k + n]:
+            del self.whole[k]
 
     def _alloc(self, name, amount, alignment):
         al = max(alignment, 1)
@@ -76,6 +117,7 @@ class IrSemU(IrSem):
             a = self._alloc(ins.name, len(ins.data), 8)
             for j, b in enumerate(ins.data):
                 self.mem = z3.Store(self.mem, z3.BitVecVal(a + j, self.pb), z3.BitVecVal(b, 8))
+                self._forget(z3.BitVecVal(a + j, self.pb), 1)
                 self._mark(z3.BitVecVal(a + j, self.pb), z3.BoolVal(False))
             env[ins] = ("blob", a)
         elif k == "CopyBlob":
@@ -84,6 +126,7 @@ class IrSemU(IrSem):
             us = [self.undefined(s + j) for j in range(ins.amount)]
             data = IrSem.load(self, s, ins.amount)
             IrSem.store(self, d, data, ins.amount)
+            self._forget(d, ins.amount)
             for j in range(ins.amount):
                 self._mark(z3.simplify(d + j), us[j])
         else:
